@@ -91,9 +91,9 @@ def regen(ctx):
 
 def coq_check_flags(ctx, n):
     """check_rule / in_scope of every table row, evaluated by Coq"""
-    out = ctx.eval_terms('flags', ['Model.RvRules', 'Gen.Tab_rv_patterns', 'Proofs.C05_rules', 'Proofs.C05_mem', 'Proofs.C05_ext'],
-                         ['map (fun r => ((check_rule r, match tree_sem (r_tree r) with Some _ => true | None => false end), '
-                          '((check_rule2 r || check_cjmp_ext r)%bool, in_scope2 r), (check_unary r, in_scope3 r))) rv_rules'])
+    out = ctx.eval_terms('flags', ['Model.RvRules', 'Gen.Tab_rv_patterns', 'Proofs.C05_rules', 'Proofs.C05_mem', 'Proofs.C05_ext', 'Proofs.C05_ext2'],
+                         ['map (fun r => (((check_rule r || check_subword_bin r)%bool, match tree_sem (r_tree r) with Some _ => true | None => false end), '
+                          '((check_rule2 r || check_cjmp_ext r)%bool, in_scope2 r), ((check_unary r || check_memprod r || check_fprel_reg r)%bool, (in_scope3 r || check_memprod r || check_fprel_reg r)%bool))) rv_rules'])
     toks = re.findall(r'VBool (true|false)', out)
     if len(toks) != 6 * n:
         toks = re.findall(r'\b(true|false)\b', out)
@@ -445,7 +445,7 @@ def run(ctx):
         'conditions': sorted({str(r['cond'][0]) for r in rows})}
     flags = None
     wit = {}
-    ok, _ = ctx.build(['Gen/Tab_rv_patterns.vo', 'Proofs/C05_rules.vo', 'Proofs/C05_mem.vo', 'Proofs/C05_ext.vo'])
+    ok, _ = ctx.build(['Gen/Tab_rv_patterns.vo', 'Proofs/C05_rules.vo', 'Proofs/C05_mem.vo', 'Proofs/C05_ext.vo', 'Proofs/C05_ext2.vo'])
     if ok:
         flags = coq_check_flags(ctx, len(rows))
     wit = rule_search(ctx, R, rows, flags)
@@ -496,7 +496,9 @@ def search(ctx):
 
 
 MANIFEST = {
-    'text': 'WAVE 3: 156 of 232 exported rule rows proved on the current source (180 of 232 once the sub-word compare repair is applied): ALU/constant rows, loads/stores/moves, 32-bit and (extended) 8/16-bit conditional jumps, jump, casts, neg/inv, REG rows; not proved: float/soft-float rows, LABEL and other address-forming rows, FPREL, MOVB, mem-producing rows and six multi-instruction sub-word rows. EARLIER: UPDATE: 111 of 232 exported rule rows are now proved sound (68 ALU/constant rows + 43 load/store/move/32-bit '
+    'text': 'WAVE 4: 189 of 232 exported rule rows proved (adds the six multi-instruction sub-word rows SHRU8/16, SHRI8/16, DIVU16, REMU16 '
+            'and the address rows mem:reg, mem:FPRELU32, reg:FPRELU32); unproved: 37 float/soft-float rows, LABEL x2 (address loaded from '
+            'the literal pool through lui+addi / auipc relocation pairs), MOVB, and 3 float-typed CONST/MOV rows. WAVE 3: 156 of 232 exported rule rows proved on the current source (180 of 232 once the sub-word compare repair is applied): ALU/constant rows, loads/stores/moves, 32-bit and (extended) 8/16-bit conditional jumps, jump, casts, neg/inv, REG rows; not proved: float/soft-float rows, LABEL and other address-forming rows, FPREL, MOVB, mem-producing rows and six multi-instruction sub-word rows. EARLIER: UPDATE: 111 of 232 exported rule rows are now proved sound (68 ALU/constant rows + 43 load/store/move/32-bit '
             'conditional-jump/jump rows), 24 sub-word conditional-jump rows are refuted with verified witnesses, and the frame code '
             '(prologue/epilogue balanced, argument locations, caller/callee stack-slot agreement) is proved on an abstract frame machine '
             'whose model is compared with the real RiscvArch methods on generated signatures and frames (c05_rv_callconv; abstract: word '
